@@ -57,6 +57,8 @@ def cases(tier, rnd):
                     "S": 1 + i % 3, "offset": rnd.choice([0, 150, 800, 900])})
     for G in ([1000] if tier == "quick" else [999, 1000, 1001, 1500]):
         out.append({"kind": "fft", "seed": rnd.randrange(1 << 30), "G": G, "kids": rnd.randint(2, 3)})
+        out.append({"kind": "fft", "seed": rnd.randrange(1 << 30), "G": G, "kids": rnd.randint(2, 3), "ill": True})
+        out.append({"kind": "fft", "seed": rnd.randrange(1 << 30), "G": G, "kids": 2, "ill": "peaked"})
     # large grids again, but reached through an edit history over two live trees that share the process-wide memo tables
     for G in ([1000] if tier == "quick" else [1000, 1001, 1200]):
         for S in ((1,) if tier == "quick" else (1, 2)):
@@ -180,7 +182,17 @@ def check_float(ctx, case, fft):
     offs = [0.0] + [float(case.get("offset", 0)) * (s % 2) + 10.0 * s for s in range(1, S)]
     vals = []
     for _ in range(kids + 1):
-        if fft:
+        if fft and case.get("ill"):
+            # wide dynamic range on the FFT path: where the true convolution is far below the FFT's round-off the transform
+            # returns tiny negative numbers, which must be floored *before* the log (finite output), see C02's floor clause
+            if case["ill"] == "peaked":
+                # smooth, sharply peaked rows (what deep-coverage binomial likelihoods look like): over most of the grid
+                # the true convolution is ~1e-100 of its peak, so the FFT output there is round-off of either sign
+                x = np.linspace(0.0, 1.0, G)
+                v = np.stack([np.exp(-0.5 * ((x - rng.uniform(0.25, 0.9)) / 0.03) ** 2) + 1e-300 for _ in range(S)])
+            else:
+                v = np.exp(-rng.uniform(0, 45, size=(S, G)))
+        elif fft:
             v = rng.uniform(0.05, 1.0, size=(S, G))
         else:
             v = np.exp(-rng.uniform(0, 70, size=(S, G)))  # dynamic range ~1e-30 within a row
@@ -196,6 +208,11 @@ def check_float(ctx, case, fft):
     ld = np.longdouble
     prior = ld(1) / ld(G)
     floor = 1e-6 if fft else 1e-80
+    if fft and case.get("ill") == "peaked":
+        # the root is a double running sum of the transform's output, so on sharply peaked rows the round-off (and the
+        # one-sided flooring of negative round-off) accumulates to ~1e-11 of the scale: entries within three orders of the
+        # "about 1e-6" floor are not judged for accuracy (finiteness is judged everywhere)
+        floor = 1e-3
     rel = 1e-6 if fft else 1e-8
     for s in range(S):
         # reference in extended precision on the unscaled row (all terms positive: direct
@@ -208,6 +225,14 @@ def check_float(ctx, case, fft):
         exact_root = np.cumsum(node_r) * prior
         code = np.exp((root[s] + (kids + 1) * offs[s]).astype(ld))
         peak = exact_root.max()
+        if fft:
+            # the FFT path is accurate to about 1e-6 *of the peaks of the rows it convolves* (they are normalised to peak 1
+            # before the transform); when the children's peaks add up beyond the grid, every kept entry is far below that
+            # scale and only finiteness is claimed.  Reference scale = product of the peaks of all factor rows.
+            scale = ld(1)
+            for r in R:
+                scale = scale * r.max()
+            peak = scale * (vals[0][s].astype(ld) * prior).max() * prior
         mask = exact_root >= floor * peak
         err = np.abs(code[mask] - exact_root[mask]) / exact_root[mask]
         ctx.stat("float_entries_checked", int(mask.sum()))
